@@ -504,7 +504,12 @@ pub const RULE: &str = "wide cases = functions over 6..257 (thorough: ..857) var
 
 pub fn stage_conn(ctx: &mut Ctx, name: &str, canon: bool, cases: u64) -> Result<(), Violation> {
     let thorough = ctx.tier == Tier::Thorough;
-    let r = par_random(ctx, name, cases, 600, |tape, st| {
+    let r = par_random(ctx, name, cases, 600, |tape, st| tape_conn(tape, thorough, canon, st));
+    ctx.stage(name, false, r)
+}
+
+/// one case of `stage_conn` decoded from a byte tape (shared with the libFuzzer target `wide`)
+pub fn tape_conn(tape: &[u8], thorough: bool, canon: bool, st: &mut Stats) -> Check {
         let mut t = Tape::new(tape);
         let (a, b, c) = gen_conn(&mut t, thorough, st);
         let mode = fun::gen_operands(&mut t);
@@ -517,8 +522,6 @@ pub fn stage_conn(ctx: &mut Ctx, name: &str, canon: bool, cases: u64) -> Result<
             let pf = gen_prefill(&mut t, st);
             with_prefill(pf, || fun::with_operands(mode, || check_conn(&a, &b, &c, canon)))
         }
-    });
-    ctx.stage(name, false, r)
 }
 
 // ------------------------------------------------------------------------------------------------
@@ -566,7 +569,12 @@ pub fn check_quant(f: &W, vars: &[usize]) -> Check {
 
 pub fn stage_quant(ctx: &mut Ctx, name: &str, cases: u64) -> Result<(), Violation> {
     let thorough = ctx.tier == Tier::Thorough;
-    let r = par_random(ctx, name, cases, 600, |tape, st| {
+    let r = par_random(ctx, name, cases, 600, |tape, st| tape_quant(tape, thorough, st));
+    ctx.stage(name, false, r)
+}
+
+/// one case of `stage_quant` decoded from a byte tape (shared with the libFuzzer target `wide`)
+pub fn tape_quant(tape: &[u8], thorough: bool, st: &mut Stats) -> Check {
         let mut t = Tape::new(tape);
         let ids = gen_layout(&mut t, thorough);
         let mut m = Ref::new();
@@ -615,8 +623,6 @@ pub fn stage_quant(ctx: &mut Ctx, name: &str, cases: u64) -> Result<(), Violatio
             let pf = gen_prefill(&mut t, st);
             with_prefill(pf, || fun::with_operands(mode, || check_quant(&f, &vars)))
         }
-    });
-    ctx.stage(name, false, r)
 }
 
 // ------------------------------------------------------------------------------------------------
@@ -679,15 +685,19 @@ fn gen_count_operand(t: &mut Tape, ids: &[usize]) -> W {
 
 pub fn stage_count(ctx: &mut Ctx, name: &str, cases: u64) -> Result<(), Violation> {
     let thorough = ctx.tier == Tier::Thorough;
-    let maxlen = if thorough { 15 } else { 12 };
-    let r = par_random(ctx, name, cases, 400, |tape, st| {
+    let r = par_random(ctx, name, cases, 400, |tape, st| tape_count(tape, thorough, st));
+    ctx.stage(name, false, r)
+}
+
+/// one case of `stage_count` decoded from a byte tape (shared with the libFuzzer target `wide`)
+pub fn tape_count(tape: &[u8], thorough: bool, st: &mut Stats) -> Check {
         let mut t = Tape::new(tape);
         let ids = gen_layout(&mut t, thorough);
         // long lists need many distinct variables to stay non-constant; short layouts are fine too
         let la = match t.choose(4) {
             0 => t.choose(5),
             1 => 7 + t.choose(3),
-            _ => 5 + t.choose(maxlen - 4),
+            _ => 5 + t.choose(if thorough { 15 } else { 12 } - 4),
         };
         let lb = t.choose(8);
         let mut a: Vec<W> = (0..la).map(|_| gen_count_operand(&mut t, &ids)).collect();
@@ -735,8 +745,6 @@ pub fn stage_count(ctx: &mut Ctx, name: &str, cases: u64) -> Result<(), Violatio
             let pf = gen_prefill(&mut t, st);
             with_prefill(pf, || fun::with_operands(mode, || check_count(&a, &b, n)))
         }
-    });
-    ctx.stage(name, false, r)
 }
 
 // ------------------------------------------------------------------------------------------------
@@ -819,7 +827,12 @@ pub fn check_model(f: &W, probes: &[usize]) -> Check {
 
 pub fn stage_model(ctx: &mut Ctx, name: &str, cases: u64) -> Result<(), Violation> {
     let thorough = ctx.tier == Tier::Thorough;
-    let r = par_random(ctx, name, cases, 600, |tape, st| {
+    let r = par_random(ctx, name, cases, 600, |tape, st| tape_model(tape, thorough, st));
+    ctx.stage(name, false, r)
+}
+
+/// one case of `stage_model` decoded from a byte tape (shared with the libFuzzer target `wide`)
+pub fn tape_model(tape: &[u8], thorough: bool, st: &mut Stats) -> Check {
         let mut t = Tape::new(tape);
         let ids = gen_layout(&mut t, thorough);
         let mut m = Ref::new();
@@ -843,8 +856,6 @@ pub fn stage_model(ctx: &mut Ctx, name: &str, cases: u64) -> Result<(), Violatio
             let pf = gen_prefill(&mut t, st);
             with_prefill(pf, || fun::with_operands(mode, || check_model(&f, &probes)))
         }
-    });
-    ctx.stage(name, false, r)
 }
 
 // ------------------------------------------------------------------------------------------------
@@ -899,7 +910,12 @@ pub fn check_retain(f: &W) -> Check {
 
 pub fn stage_retain(ctx: &mut Ctx, name: &str, cases: u64) -> Result<(), Violation> {
     let thorough = ctx.tier == Tier::Thorough;
-    let r = par_random(ctx, name, cases, 600, |tape, st| {
+    let r = par_random(ctx, name, cases, 600, |tape, st| tape_retain(tape, thorough, st));
+    ctx.stage(name, false, r)
+}
+
+/// one case of `stage_retain` decoded from a byte tape (shared with the libFuzzer target `wide`)
+pub fn tape_retain(tape: &[u8], thorough: bool, st: &mut Stats) -> Check {
         let mut t = Tape::new(tape);
         let ids = gen_layout(&mut t, thorough);
         let mut m = Ref::new();
@@ -913,8 +929,6 @@ pub fn stage_retain(ctx: &mut Ctx, name: &str, cases: u64) -> Result<(), Violati
             let pf = gen_prefill(&mut t, st);
             with_prefill(pf, || fun::with_operands(mode, || check_retain(&f)))
         }
-    });
-    ctx.stage(name, false, r)
 }
 
 // ------------------------------------------------------------------------------------------------
@@ -1216,7 +1230,12 @@ pub fn check_history(ws: &[W]) -> Check {
 
 pub fn stage_history(ctx: &mut Ctx, name: &str, cases: u64) -> Result<(), Violation> {
     let thorough = ctx.tier == Tier::Thorough;
-    let r = par_random(ctx, name, cases, 900, |tape, st| {
+    let r = par_random(ctx, name, cases, 900, |tape, st| tape_history(tape, thorough, st));
+    ctx.stage(name, false, r)
+}
+
+/// one case of `stage_history` decoded from a byte tape (shared with the libFuzzer target `wide`)
+pub fn tape_history(tape: &[u8], thorough: bool, st: &mut Stats) -> Check {
         let mut t = Tape::new(tape);
         let ids = gen_layout(&mut t, thorough);
         let mut m = Ref::new();
@@ -1239,6 +1258,17 @@ pub fn stage_history(ctx: &mut Ctx, name: &str, cases: u64) -> Result<(), Violat
         nontrivial(st, &mut m, &refs, &cj);
         let pf = gen_prefill(&mut t, st);
         with_prefill(pf, || check_history(&ws))
-    });
-    ctx.stage(name, false, r)
+}
+
+/// Thorough tier: the libFuzzer target `wide` pinned to one kind of wide case (coverage guidance over the
+/// same tape decoder and oracle; a crash is re-validated by the property's replay before it counts).
+pub fn fuzz_kind(ctx: &mut Ctx, kind: &str, replay: fn(&Value) -> Check) -> Result<(), Violation> {
+    if ctx.tier != Tier::Thorough {
+        return Ok(());
+    }
+    std::env::set_var("VERIF_WIDE_KIND", kind);
+    let seeds: Vec<Vec<u8>> = vec![vec![0u8; 64], (0..=255u8).collect(), (0..=255u8).rev().collect(), vec![0x80u8; 300]];
+    let r = fuzz_stage(ctx, "wide", 10_000, 700, &seeds, replay);
+    std::env::remove_var("VERIF_WIDE_KIND");
+    ctx.stage(&format!("libfuzzer-wide-{}", kind), false, r)
 }
